@@ -37,6 +37,29 @@ func hostileStream(c *sim.Ctx, allowHuge bool) (stream []byte, frames [][]byte, 
 	return
 }
 
+// usedReceiver returns a packet of the given type that already has a history:
+// either built through the API or the result of decoding a valid frame.
+func usedReceiver(c *sim.Ctx, typ byte) mq.Packet {
+	t := c.T
+	if typ < 1 || typ > 15 {
+		u := &mq.Undefined{}
+		u.UnmarshalBinary([]byte{1, 2, 3})
+		return u
+	}
+	if t.Bool(1, 2) {
+		a := gen.Packet(t, gen.Cfg{CanSet: CanSet, NoHuge: true, Types: []byte{typ}})
+		if p, _, err := buildGuard(a, t); err == nil {
+			return p
+		}
+	}
+	a := gen.Packet(t, gen.Cfg{Spec: true, NoHuge: true, Types: []byte{typ}})
+	f, _ := ref.Encode(a)
+	if o := ReadOne(link.NewReader(c.Muted(), f, link.Mode{})); o.Kind == "packet" {
+		return o.P
+	}
+	return drv.New(typ)
+}
+
 func unmarshalTargets(t *sim.Tape, first byte) []mq.Packet {
 	var out []mq.Packet
 	for typ := byte(0); typ <= 15; typ++ {
@@ -100,9 +123,19 @@ func runC04(c *sim.Ctx) *sim.Violation {
 				cuts = append(cuts, t.Int(len(body)))
 			}
 		}
+		// receivers that are already in use (a reused packet object): same type as
+		// the frame says, plus two other types
+		used := []byte{f[0] >> 4, byte(t.Int(16)), byte(t.Int(16))}
 		for _, k := range cuts {
 			data := body[:k]
-			for _, p := range unmarshalTargets(t, f[0]) {
+			targets := unmarshalTargets(t, f[0])
+			if k == len(body) || k == cuts[len(cuts)-1] {
+				for _, ut := range used {
+					targets = append(targets, usedReceiver(c, ut))
+				}
+				c.Count("probe.UnmarshalBinary-into-a-packet-already-in-use")
+			}
+			for _, p := range targets {
 				calls++
 				var err error
 				if pi := sim.Guard(func() { err = p.UnmarshalBinary(data) }); pi != nil {
